@@ -1,10 +1,22 @@
-(* Props/C12.v — placeholder, replaced when Proofs/JoinAll.v lands *)
+(* Props/C12.v — C12 for the streamed join-map generators: for every chunk size >= 1 the driver model ends, within
+   the closed-form fuel `driver_fuel L R` (main loop) and `kfuel` (each kernel call), in Ok or in the clear
+   ValueError; it never runs out of fuel (the model's image of "spins without consuming input or producing
+   output"), including when a run of equal keys is longer than a chunk (then: the error).  The fuel theorems of
+   the other streamed operations are in Props/C04 (map_stream_correct, indexed_stream_correct,
+   indexed_entry_too_long_raises_after_fix), Props/C05 (csv_kernel_roundtrip), Props/C16 (concat_session_correct)
+   and Props/C18 (to_csv_terminates), re-compiled by the C12 check. *)
 From Coq Require Import ZArith List.
-From EV Require Import Res Arr Join JoinSpec JoinBase JoinIface JoinDriver JoinMain.
+From EV Require Import Res Arr Join JoinSpec JoinBase JoinIface JoinDriver JoinMain JoinAll.
 Import ListNotations.
 Open Scope Z_scope.
-Theorem c12_both_unique_total : forall is_left L R inv cs,
-  1 <= cs -> ssorted L -> ssorted R ->
-  streamed (mkvar KBU is_left) L R inv cs = Ok (expected KBU is_left inv L R).
-Proof. exact streamed_both_unique_correct. Qed.
-Print Assumptions c12_both_unique_total.
+
+Theorem c12_streamed_join_terminates : forall k is_left L R inv cs,
+  kind_pre k L R -> 1 <= cs -> streamed (mkvar k is_left) L R inv cs <> OutOfFuel.
+Proof. exact streamed_terminates. Qed.
+Print Assumptions c12_streamed_join_terminates.
+
+Theorem c12_streamed_join_error_is_clear : forall k is_left L R inv cs c,
+  kind_pre k L R -> 1 <= cs ->
+  streamed (mkvar k is_left) L R inv cs = Raise c -> c = E_ValueError /\ ~ chunks_ok k cs L R.
+Proof. intros k is_left L R inv cs c Hp Hc. exact (streamed_raises_only_value_error k is_left L R inv cs Hp Hc c). Qed.
+Print Assumptions c12_streamed_join_error_is_clear.
